@@ -20,7 +20,9 @@ StdoutKinds == {"valid", "nonJSON", "empty", "trailingGarbage", "overCap", "wron
 ErrCodes == {"VALIDATION_ERROR", "UNSUPPORTED_CONTRACT_VERSION", "ACCESS_DENIED", "TIMEOUT", "THROTTLED", "ERROR"}
 StderrKinds == {"empty", "incompleteJSON", "nonJSON", "huge"} \cup {"err-" \o c : c \in ErrCodes}
 (* "...Cancel": the context is cancelled (no deadline) instead of expiring *)
-Timings == {"immediate", "slow", "heldPipes", "slowHeld", "slowCancel", "slowHeldCancel"}
+(* "unstartable": the file cannot be executed as it is (a script without an interpreter line); were it handed to a shell all the
+   same, it would answer at once and leave a descendant that holds the pipes *)
+Timings == {"immediate", "slow", "heldPipes", "slowHeld", "slowCancel", "slowHeldCancel", "unstartable"}
 
 (* ---- Part B: classification --------------------------------------------- *)
 Killed(in) == in.timing \in {"slow", "slowHeld", "slowCancel", "slowHeldCancel"}                     \* still running at the deadline: killed by the host
@@ -44,8 +46,12 @@ Class(in) ==
              ELSE "malformedError")             \* a mandatory field missing, or the contract version not supported
        ELSE "ok"
 (* when a descendant keeps the pipes open the host may give up waiting and report the run as failed although the reply
-   was complete: both are behaviours *)
-Classes(in) == IF in.timing = "heldPipes" THEN {Class(in), FailClass(in)} ELSE {Class(in)}
+   was complete: both are behaviours.
+   An unstartable file is reported as an executable-file error; a host that finds a way to run it may report what the run gave
+   (the statement does not forbid that) - the bounded delay holds either way. *)
+Classes(in) == IF in.timing = "heldPipes" THEN {Class(in), FailClass(in)}
+               ELSE IF in.timing = "unstartable" THEN {"executableFileError", Class(in), FailClass(in)}
+               ELSE {Class(in)}
 D_Success(in) == in.exit = 0 /\ ~Killed(in) /\ in.stdout = "valid" /\ in.stderr # "huge"
 
 (* ---- Part A: lifecycle ----------------------------------------------------- *)
